@@ -131,6 +131,10 @@ class _StatePointDict(JSONAttrDict):
             except OSError as error:
                 os.replace(tmp_statepoint_file, self.filename)  # rollback
                 if error.errno in (errno.EEXIST, errno.ENOTEMPTY, errno.EACCES):
+                    # Also roll back the in-memory state point, otherwise the
+                    # rejected value would silently be applied by the next edit.
+                    with self._suspend_sync:
+                        self._update(self._load_from_resource(), _validate=False)
                     raise DestinationExistsError(new_id)
                 else:
                     raise
